@@ -191,9 +191,11 @@ U(name="L.cmp.order", harness="harness/lem_cmp_order.c", mode="P", unwind=20, ch
 # the same contracts with the library's assert()s compiled out (-DNDEBUG, the Release configuration): code that only runs
 # inside an assert() -- a wipe, a dependency call, a check -- disappears there
 import copy as _copy
-for _n in ("U.api.free", "U.api.create", "U.api.load", "U.api.crypt", "U.api.decode", "U.api.decode_explicit", "U.lang.phrase_decode", "U.api.keygen", "U.api.encode"):
+for _n in ("U.api.free", "U.api.create", "U.api.load", "U.api.crypt", "U.api.decode", "U.api.decode_explicit", "U.lang.phrase_decode", "U.api.keygen", "U.api.encode", "U.dep.inject", "U.api.store", "U.lang.search"):
     _u = _copy.copy([u for u in UNITS if u.name == _n][0])
     _u.name = _n + "@ndebug"; _u.asserts_on = False; _u.props = ["C16", "C14"]; _u.canary = False
+    if _n == "U.dep.inject":
+        _u.replace = []      # the debug self-test (and its callees) does not exist under NDEBUG
     UNITS.append(_u)
 NDEBUG_UNITS = [u.name for u in UNITS if u.name.endswith("@ndebug")]
 
